@@ -191,7 +191,11 @@ func (c *Ctx) writeEvidence() {
 		"Go projection functions of the harness (public API calls only)"}, ev.Coverage.TrustedBase...)
 	os.MkdirAll(filepath.Join(verifRoot, "evidence"), 0o755)
 	b, _ := json.MarshalIndent(ev, "", " ")
-	if err := os.WriteFile(filepath.Join(verifRoot, "evidence", c.Prop+".json"), b, 0o644); err != nil {
+	name := c.Prop + ".json"
+	if os.Getenv("VERIF_PHASE") != "" {
+		name = c.Prop + ".partial.json" // developer run of a subset of the phases: never the registered evidence
+	}
+	if err := os.WriteFile(filepath.Join(verifRoot, "evidence", name), b, 0o644); err != nil {
 		infraFail("write evidence: %v", err)
 	}
 }
